@@ -56,7 +56,17 @@ def leaves(t, conds=()):
 
 
 def has_cond(conds, m, k):
-    """Polarity of `m has k` among the conditions (None if absent)."""
+    """Polarity of `m has k` among the conditions, closed under unit propagation (None if absent)."""
+    clauses = []
+    for t, pol in conds:
+        x, p = terms._strip_not(t, pol)
+        clauses += terms.to_clauses(x, p)
+    pr = terms.propagate_clauses([], clauses) if len(clauses) <= 40 else None
+    if pr is not None:
+        for x, p in pr[0]:
+            h = q.as_has(x)
+            if h is not None and h[0] == m and h[1] == k:
+                return p
     for t, pol in conds:
         stack = [(t, pol)]
         while stack:
@@ -72,6 +82,16 @@ def has_cond(conds, m, k):
                 if h is not None and h[0] == m and h[1] == k:
                     return p
     return None
+
+
+def validate_fn(prog):
+    import workers
+    return workers.worker_of(prog, UTILS + "validate_props_and_rename_vars")
+
+
+def collect_fn(prog):
+    import workers
+    return workers.worker_of(prog, "mc_utils::collect_unique_hctl_vars")
 
 
 class VState:
@@ -233,9 +253,9 @@ def run(prog, rep):
     for r, t in (("C07-R1", "validator(shape) == specification for every node shape"), ("C07-R2", "errors of recursive calls are propagated"),
                  ("C07-R3", "the validator has no hidden state"), ("C07-R4", "evaluation only of validated trees, after the support check")):
         rep.rule(r, t)
-    f = prog.lib_fn(VALIDATE)
+    f = validate_fn(prog)
     if f is None:
-        rep.unresolved("C07-R1", "validate_and_rename_recursive", "", "function not found")
+        rep.unresolved("C07-R1", "validate_and_rename_recursive", "", "the recursive validator behind validate_props_and_rename_vars was not found")
         return
     rep.functions.add(f.qual)
     where = f"{f.file}:{f.line}"
@@ -248,6 +268,7 @@ def run(prog, rep):
     if not vs.ok:
         return
     tree, scope, name, ctx = vs.tree, vs.scope, vs.name, vs.ctx
+    VALIDATE = f.path
     eng = terms.Engine(prog, inline=True, hooks=E.Hooks([UTILS], opaque_names=[VALIDATE]))
     nz = norm.Normalizer()
     vs.nz = nz
@@ -260,10 +281,11 @@ def run(prog, rep):
                 and a[2][0][1][0] in ("call", "rec")
             pb = b[0] == "ctor" and str(b[1]).rsplit("::", 1)[-1] == "Err" and b[2] and b[2][0][0] == "proj" and str(b[2][0][2]).rsplit("::", 1)[-1] == "Err" \
                 and b[2][0][1][0] in ("call", "rec")
+            # (what made the propagation branch impossible is known in the branch that is kept)
             if pa and not pb:
-                return b
+                return nz(terms.assume(b, [("if", t[1], False)]))
             if pb and not pa:
-                return a
+                return nz(terms.assume(a, [("if", t[1], True)]))
             return ("ite", t[1], a, b)
         return t
 
@@ -372,20 +394,20 @@ def run(prog, rep):
         good = t is not None and ok(t)
         if good:
             mk = t[2][0]
-            good = mk[0] == "call" and mk[1].endswith("mk_unary") and is_rec(mk[2][0], "validate_and_rename_recursive", lambda a: same_scope(a, c)) and mk[2][1] == opc
+            good = mk[0] == "call" and mk[1].endswith("mk_unary") and is_rec(mk[2][0], VALIDATE, lambda a: same_scope(a, c)) and mk[2][1] == opc
         report(f"shape:Unary[{op}]", good, "Unary(op, c): Ok(mk_unary(rec(c, scope, name)?, op))", f"unary node: returns {sem.short(t, 200) if t else None}")
-        check_tries(rep, s, f"Unary[{op}]", 1, where)
+        check_tries(rep, s, f"Unary[{op}]", 1, where, VALIDATE)
     for op in ("And", "EU"):
         opc = ("ctor", E.BOP + op, ())
         s, t = spec(E.shape_binary(op, l, r))
         good = t is not None and ok(t)
         if good:
             mk = t[2][0]
-            good = (mk[0] == "call" and mk[1].endswith("mk_binary") and is_rec(mk[2][0], "validate_and_rename_recursive", lambda a: same_scope(a, l))
-                    and is_rec(mk[2][1], "validate_and_rename_recursive", lambda a: same_scope(a, r)) and mk[2][2] == opc)
+            good = (mk[0] == "call" and mk[1].endswith("mk_binary") and is_rec(mk[2][0], VALIDATE, lambda a: same_scope(a, l))
+                    and is_rec(mk[2][1], VALIDATE, lambda a: same_scope(a, r)) and mk[2][2] == opc)
         report(f"shape:Binary[{op}]", good, "Binary(op, l, r): Ok(mk_binary(rec(l, scope, name)?, rec(r, scope, name)?, op)) - both children see the parent's scope",
                f"binary node: returns {sem.short(t, 260) if t else None}")
-        check_tries(rep, s, f"Binary[{op}]", 2, where)
+        check_tries(rep, s, f"Binary[{op}]", 2, where, VALIDATE)
     # ---- hybrid
     var = ("lit", "z")
     for dom_name, dom in (("none", None), ("dom", ("lit", "d"))):
@@ -404,7 +426,7 @@ def run(prog, rep):
                         g = mk[0] == "call" and mk[1].endswith("mk_hybrid") and len(mk[2]) == 4 and mk[2][2] == domt and mk[2][3] == opc and h is False
                         newname = None
                         if g:
-                            g = is_rec(mk[2][0], "validate_and_rename_recursive",
+                            g = is_rec(mk[2][0], VALIDATE,
                                        lambda a: vs.arity(a) and vs.child_of(a) == c and scope_plus(vs.scope_of(a), scope, var, name) is not None
                                        and vs.name_of(a) == scope_plus(vs.scope_of(a), scope, var, name) and vs.ctx_of(a) == ctx)
                         if g:
@@ -423,7 +445,7 @@ def run(prog, rep):
             report(f"shape:{op}[{dom_name}]", good,
                    f"{op}: Err if re-quantified, else child validated in scope+{{var->name+'x'}} and rebuilt with the new name, same domain",
                    f"{op} node: {why}")
-            check_tries(rep, s, f"{op}[{dom_name}]", 1, where)
+            check_tries(rep, s, f"{op}[{dom_name}]", 1, where, VALIDATE)
     s, t = spec(E.shape_hybrid("Jump", var, None, c))
     good = t is not None
     why = "could not be evaluated"
@@ -434,7 +456,7 @@ def run(prog, rep):
             if ok(leaf):
                 mk = leaf[2][0]
                 g = (mk[0] == "call" and mk[1].endswith("mk_hybrid") and len(mk[2]) == 4 and mk[2][3] == ("ctor", E.HOP + "Jump", ())
-                     and is_rec(mk[2][0], "validate_and_rename_recursive", lambda a: same_scope(a, c)) and q.as_at(nz(mk[2][1])) == (scope, var) and h is True)
+                     and is_rec(mk[2][0], VALIDATE, lambda a: same_scope(a, c)) and q.as_at(nz(mk[2][1])) == (scope, var) and h is True)
                 if not g:
                     good, why = False, f"accepts with {sem.short(leaf, 200)} under target-bound={h}"
             elif err(leaf):
@@ -444,19 +466,19 @@ def run(prog, rep):
                 good, why = False, f"returns {sem.short(leaf, 100)}"
         good = good and any(ok(x) for _, x in lv) and any(err(x) for _, x in lv)
     report("shape:Jump", good, "Jump: child validated in the unchanged scope; Ok(mk_hybrid(.., scope[var], .., Jump)) iff the target is bound", f"jump node: {why}")
-    check_tries(rep, s, "Jump", 1, where)
+    check_tries(rep, s, "Jump", 1, where, VALIDATE)
     rep.floor("C07-R1", 16)
     rep.floor("C07-R2", 11)
     check_collection_and_support(prog, rep)
     check_pass_through(prog, rep)
 
 
-def check_tries(rep, s, key, n, where):
+def check_tries(rep, s, key, n, where, vpath="validate_and_rename_recursive"):
     """The `?` exits of the specialised validator propagate exactly the recursive calls' results."""
     if s is None:
         rep.unresolved("C07-R2", f"propagate:{key}", where, "not evaluated")
         return
-    tries = [r for r in s.returns if r[5] == "try" and r[0][0] in ("call", "rec") and isinstance(r[0][1], str) and r[0][1].endswith("validate_and_rename_recursive")]
+    tries = [r for r in s.returns if r[5] == "try" and r[0][0] in ("call", "rec") and isinstance(r[0][1], str) and r[0][1].endswith(vpath)]
     if len(tries) != n:
         # the `?` may live in a helper that was inlined: then the exit is part of the value - a leaf Err(e) with e the error of a recursive call
         full = getattr(s, "ret_full", None) or s.ret
@@ -464,7 +486,7 @@ def check_tries(rep, s, key, n, where):
         for x in [full] + list(subterms(full)):
             if x[0] == "ctor" and str(x[1]).rsplit("::", 1)[-1] == "Err" and len(x[2]) == 1 and x[2][0][0] == "proj" and str(x[2][0][2]).rsplit("::", 1)[-1] == "Err":
                 r_ = x[2][0][1]
-                if r_[0] in ("call", "rec") and isinstance(r_[1], str) and r_[1].endswith("validate_and_rename_recursive"):
+                if r_[0] in ("call", "rec") and isinstance(r_[1], str) and r_[1].endswith(vpath):
                     props.add(r_)
         tries = list(props)
     rep.check(len(tries) == n, "C07-R2", f"propagate:{key}", where, f"{n} recursive result(s) propagated with `?`",
@@ -472,12 +494,13 @@ def check_tries(rep, s, key, n, where):
 
 
 def check_collection_and_support(prog, rep):
-    cu = prog.lib_fn(COLLECT)
+    cu = collect_fn(prog)
     if cu is None:
-        rep.unresolved("C07-R4", "collect_unique_hctl_vars_recursive", "", "function not found")
+        rep.unresolved("C07-R4", "collect_unique_hctl_vars_recursive", "", "the recursive collector behind collect_unique_hctl_vars was not found")
         return
     rep.functions.add(cu.qual)
     pn = cu.param_names()
+    COLLECT = cu.path
     eng = terms.Engine(prog, inline=True, hooks=E.Hooks(["mc_utils::"], opaque_names=[COLLECT]))
     seen = ("param", pn[1])
     c, l, r = ("param", "#c"), ("param", "#l"), ("param", "#r")
@@ -486,7 +509,7 @@ def check_collection_and_support(prog, rep):
         s = eng.specialise(cu, {pn[0]: E.node_term(shape)})
         if s is None:
             return None, None, None
-        recs = [x for x in s.all_sites() if x.kind == "call" and x.is_call_to("collect_unique_hctl_vars_recursive")]
+        recs = [x for x in s.all_sites() if x.kind == "call" and prog.resolve_local(cu.crate, x.callee) is cu]
         ins = [x for x in s.all_sites() if x.kind == "mcall" and x.name == "insert"]
         return s, recs, ins
     where = f"{cu.file}:{cu.line}"
@@ -506,7 +529,7 @@ def check_collection_and_support(prog, rep):
         acc = s.mut_out.get(pn[1]) if getattr(s, "mut_out", None) and pn[1] in s.mut_out else s.ret
         if acc is None or acc == ("unit",) or acc == terms.UNIT:
             acc = seen if not kids and not var else acc
-        merged = [y for y in [acc] + list(subterms(acc)) if y[0] in ("call", "rec") and isinstance(y[1], str) and y[1].endswith("collect_unique_hctl_vars_recursive")] \
+        merged = [y for y in [acc] + list(subterms(acc)) if y[0] in ("call", "rec") and isinstance(y[1], str) and y[1] == COLLECT] \
             if isinstance(acc, tuple) else []
         ret_ok = isinstance(acc, tuple) and (terms.mentions_param(acc, pn[1]) or acc == seen) and \
             all(any(k in (m[2] or ()) for m in merged) for k in kids)
@@ -588,17 +611,21 @@ def check_pass_through(prog, rep):
     vp = prog.lib_fn(UTILS + "validate_props_and_rename_vars")
     if vp is not None:
         # (helpers of the module inlined: a constructor of the bundled state is seen through)
+        fv = validate_fn(prog)
+        VALIDATE = fv.path if fv is not None else UTILS + "validate_and_rename_recursive"
         s = terms.Engine(prog, inline=True, hooks=E.Hooks([UTILS], opaque_names=[VALIDATE])).summary(vp)
-        calls = [x for x in s.sites if x.kind == "call" and x.is_call_to("validate_and_rename_recursive")]
+        calls = [x for x in s.sites if x.kind == "call" and fv is not None and prog.resolve_local(vp.crate, x.callee) is fv]
         pn = vp.param_names()
-        fv = prog.lib_fn(VALIDATE)
         vs = VState(prog, fv) if fv is not None else None
         good = len(calls) == 1 and vs is not None and vs.ok and vs.arity(calls[0].args)
         if good:
             vs.nz = norm.Normalizer()
             a = calls[0].args
             good = vs.child_of(a) == ("param", pn[0]) and terms.is_fresh_collection(vs.scope_of(a)) and terms.is_fresh_collection(vs.name_of(a)) \
-                and vs.ctx_of(a) == ("param", pn[1]) and norm.Normalizer()(s.ret) == norm.Normalizer()(calls[0].term)
+                and vs.ctx_of(a) == ("param", pn[1]) and norm.Normalizer()(s.ret) in (
+                    norm.Normalizer()(calls[0].term),
+                    # `Ok(rec(..)?)`: the same success value (only the error may be converted on the way out)
+                    norm.Normalizer()(("ctor", "std::prelude::v1::Ok", (("proj", calls[0].term, "std::prelude::v1::Ok", 0),))))
         rep.check(good, "C07-R4", "validate_props_and_rename_vars/entry", f"{vp.file}:{vp.line}", "starts the validator with an empty scope and an empty name",
                   "the validation entry does not start from an empty scope map and an empty name")
     rep.floor("C07-R4", 26)
